@@ -99,3 +99,19 @@ package hevc
 //@   loop 2 invariant old(ptlIn(r, profilePresentFlag)) && r.err == nil ==> ptl.GeneralProfileCompatibilityFlags == uint32(rdBytes(ghost(r.rd).rpay, old(ghost(r.rd).rplen)+1, 4))
 //@   loop 2 invariant old(ptlIn(r, profilePresentFlag)) && r.err == nil ==> ptl.GeneralConstraintIndicatorFlags == uint64(rdB(ghost(r.rd).rpay, old(ghost(r.rd).rplen)+5, 6))
 //@   loop 2 invariant old(ptlIn(r, profilePresentFlag)) && r.err == nil ==> ptlFlags(ptl, ghost(r.rd).rpay, old(ghost(r.rd).rplen))
+
+// ---------------------------------------------------------------- PPS tile tables (ISO/IEC 23008-2, 7.3.2.3.1 pic_parameter_set_rbsp)
+// With tiles_enabled_flag and without uniform_spacing_flag the syntax codes column_width_minus1[i] for
+// i = 0..num_tile_columns_minus1-1 followed by row_height_minus1[i] for i = 0..num_tile_rows_minus1-1; otherwise neither table
+// is coded. A successfully parsed PPS holds exactly that many entries in each table (the entry VALUES are Exp-Golomb coded
+// at variable bit positions and are not decided, see the property file).
+// ErrNotPPS is initialised with errors.New (pps.go:14) and never assigned again.
+//@ axiom ErrNotPPS != nil
+//@ pred ppsTiles(p *PPS) = (p.TilesEnabledFlag && !p.UniformSpacingFlag ==> len(p.ColumnWidthMinus1) == int(p.NumTileColumnsMinus1) && len(p.RowHeightMinus1) == int(p.NumTileRowsMinus1)) && (!(p.TilesEnabledFlag && !p.UniformSpacingFlag) ==> len(p.ColumnWidthMinus1) == 0 && len(p.RowHeightMinus1) == 0)
+//@ func ParsePPSNALUnit
+//@   ensures[C15] result1 == nil ==> result0 != nil && ppsTiles(result0)
+//@   loop 1 invariant pps.TilesEnabledFlag && !pps.UniformSpacingFlag && pps.NumTileColumnsMinus1 < 1024 && pps.NumTileRowsMinus1 < 1024
+//@   loop 1 invariant i <= pps.NumTileColumnsMinus1 && len(pps.ColumnWidthMinus1) == int(i) && len(pps.RowHeightMinus1) == 0
+//@   loop 2 invariant pps.TilesEnabledFlag && !pps.UniformSpacingFlag && pps.NumTileColumnsMinus1 < 1024 && pps.NumTileRowsMinus1 < 1024
+//@   loop 2 invariant i <= pps.NumTileRowsMinus1 && len(pps.ColumnWidthMinus1) == int(pps.NumTileColumnsMinus1) && len(pps.RowHeightMinus1) == int(i)
+//@   loop 3 invariant ppsTiles(pps)
